@@ -31,10 +31,11 @@ std::string plan_to_text(const Plan &p) {
     return s;
 }
 static bool kv(const char *line, const char *key, long long &out) {
-    std::string pat = std::string(" ") + key + "=";
-    const char *q = std::strstr(line, pat.c_str());
+    std::string pat = std::string(" ") + key + "="; const char *q = std::strstr(line, pat.c_str());
     if (!q) return false;
-    out = std::strtoll(q + pat.size(), nullptr, 10); return true;
+    q += pat.size();
+    out = (*q == '-') ? std::strtoll(q, nullptr, 10) : (long long)std::strtoull(q, nullptr, 10);      // 64-bit seeds do not fit a signed parse
+    return true;
 }
 bool plan_from_text(const std::string &t, Plan &p, std::string &err) {
     p = Plan(); size_t pos = 0;
